@@ -139,9 +139,12 @@ class UCGEInitialize(UCGInitialize):
                 ::2
             ]  # pylint: disable=protected-access
         if ucg.dont_carry:
-            ucg.controls.reverse()
+            # The diagonal is indexed by the remaining controls (first control = least
+            # significant bit); the parent index by all controls of this level, which
+            # start at qubit ``num_qubits - size_required``.
             size_required = len(ucg.dont_carry) + len(ucg.controls)
-            ctrl_qc = [self.num_qubits - 1 - x for x in ucg.controls]
+            first_control = self.num_qubits - size_required
+            ctrl_qc = [x - first_control for x in ucg.controls]
             unitary_diagonal = np.diag(diagonal)
             qc = qiskit.QuantumCircuit(size_required)
             qc.unitary(unitary_diagonal, ctrl_qc)
